@@ -33,6 +33,10 @@ kinds! {
     Defer, TryAdvance, Collect,
     // control
     Signal, Await, TlsInit,
+    // QUEUE-LIN family (a = value / predicate id)
+    QPush, QPop, QPopIf,
+    // LIST-TRAV family (a = element index of this thread / stop_on_stall)
+    LIns, LDel, LTrav,
 }
 
 /// One operation. Argument meaning per kind (unused = 0):
